@@ -280,10 +280,6 @@ func c13Classify(t reflect.Type, v reflect.Value, rule string, det map[string]st
 	if strings.Contains(ts, "<ptrshaped>") {
 		return "PointerShapedAggregate"
 	}
-	if strings.Contains(rule, "Indent") && (strings.Contains(ts, "*main.TgMP") || strings.Contains(ts, "*main.TgTP")) && strings.Contains(det["_got_full"], "nil-") {
-		// the indenting interpreters call a pointer-receiver marshal method on a nil pointer; the compact ones write null
-		return "IndentCallsMarshalerOnNilPointer"
-	}
 	for _, n := range []string{"*main.TgTV", "*main.TgIntKey", "*main.TgMV", "*time.Time", "*main.TgMErr", "*json.Number", "*json.RawMessage"} {
 		if strings.Contains(ts, n) && (strings.Contains(det["err"], "called using nil *") || strings.Contains(rule, "succeeds where Marshal fails")) {
 			return "NilPtrToValueReceiverMarshaler"
